@@ -172,9 +172,16 @@ func runWriter(specPath string) int {
 					_, _ = w.Write(sigBody)
 					return
 				}
+				// A failing try cancels the context BEFORE its handler returns: the retries of DownloadUpdates then
+				// return at once (no back-off wait, and never a second attempt, however slow the machine is).
 				switch P["fail"] {
 				case "404":
 					http.NotFound(w, r)
+					if f, ok := w.(http.Flusher); ok {
+						f.Flush()
+					}
+					time.Sleep(20 * time.Millisecond) // let the client see the status
+					cancel()
 				case "short":
 					w.Header().Set("Content-Length", strconv.Itoa(len(body)))
 					w.WriteHeader(200)
@@ -182,6 +189,8 @@ func runWriter(specPath string) int {
 					if f, ok := w.(http.Flusher); ok {
 						f.Flush()
 					}
+					time.Sleep(30 * time.Millisecond) // let the client copy what it got
+					cancel()
 					if hj, ok := w.(http.Hijacker); ok {
 						if c, _, err := hj.Hijack(); err == nil {
 							if tc, ok := c.(*net.TCPConn); ok {
@@ -193,10 +202,7 @@ func runWriter(specPath string) int {
 				default:
 					w.Header().Set("Content-Length", strconv.Itoa(len(body)))
 					_, _ = w.Write(body)
-					return
 				}
-				// a failed try: do not sit out the retry back-off (the retries return at once on a cancelled context)
-				time.AfterFunc(300*time.Millisecond, cancel)
 			}))
 			defer srv.Close()
 			reg.UpdateURLs = []string{srv.URL}
